@@ -174,9 +174,14 @@ class SoftwareManager:
             software.uninstall()
             self.node._service_request_manager.remove_request(software.name)
         software.parent = None
-        for key, value in self.port_protocol_mapping.items():
-            if value.name == software_name:
+        for key, value in list(self.port_protocol_mapping.items()):
+            if value is software:
                 self.port_protocol_mapping.pop(key)
+                # other installed software that uses the same port and protocol owns the mapping again
+                for other in self.software.values():
+                    if (other.port, other.protocol) == key:
+                        self.port_protocol_mapping[key] = other
+                        break
                 break
         for key, value in self._software_class_to_name_map.items():
             if value == software_name:
